@@ -448,6 +448,10 @@ impl<W: Write + io::Seek> ZipWriter<W> {
             GenericZipWriter::Storer(w) => self.inner = GenericZipWriter::Storer(w),
             _ => unreachable!()
         }
+        // The entry's compressor and encryption layer have been finished: whatever happens to the
+        // header patch below, nothing more can be written to this entry (it would reach the sink
+        // uncompressed and unencrypted, at whatever position the failed patch left behind).
+        self.writing_to_file = false;
         let writer = self.inner.get_plain();
 
         if !self.writing_raw {
@@ -470,7 +474,6 @@ impl<W: Write + io::Seek> ZipWriter<W> {
             writer.seek(io::SeekFrom::Start(file_end))?;
         }
 
-        self.writing_to_file = false;
         // The last entry is closed now: until the next entry is started its header must not be
         // recomputed (a retried `finish` after a failure would otherwise patch it from stale statistics).
         self.writing_raw = true;
